@@ -6,5 +6,5 @@ export CARGO_NET_OFFLINE=true
 MODS=$(python3 -c "import json;print(' '.join(sorted({m for v in json.load(open('lean/obligations.json')).values() for m in (v.get('modules') or [v['module']])})))")
 (cd lean && lake build $MODS rbpf_model)
 (cd harness && RUSTFLAGS="--cfg rbpf_verif" cargo build --release --offline)
-(cd harness_nostd && RUSTFLAGS="--cfg rbpf_verif" cargo build --release --offline)
+(cd harness_nostd && RUSTFLAGS="--cfg rbpf_verif --cfg harness_nostd" cargo build --release --offline)
 echo "setup done"
